@@ -176,7 +176,10 @@ fn main() {
             Ok(v) if v.get("case").is_some() => v,
             _ => {
                 // not a case file: a raw fuzz input (libFuzzer artifact or corpus file)
+                // replay files written by run_check.sh are named <ID>-fuzz-<target>-<artifact>
+                let named = vharness::fuzzsupport::TARGETS.iter().copied().find(|t| file.contains(&format!("-fuzz-{t}-")));
                 let target = match pid {
+                    _ if named.is_some() => named.unwrap(),
                     "C04" => "login_response",
                     "C03" => "server_finish",
                     "C08" => "server_start",
